@@ -673,6 +673,7 @@ func runC06(c *core.Ctx) {
 	// while the queue it re-checks is non-empty
 	c.Rule("R9", "the sender re-checks the write queue itself after releasing the flag; its batch holds at least one packet (shared with C02-R2/R7)", 2)
 	importObligations(c, runC02, "R9", func(o *core.Obligation) bool { return o.Rule == "R2" || o.Rule == "R7" })
+	importObligations(c, runC01, "R9", func(o *core.Obligation) bool { return o.Rule == "R1" && strings.Contains(o.Key, "start-site") })
 	importObligations(c, runC17, "R8", func(o *core.Obligation) bool { return o.Rule == "R1" || o.Rule == "R5" })
 }
 
